@@ -88,7 +88,7 @@ class C05(DrvProp):
     evidence_name = "C05_drv"
     corpus_name = "C05"
     manifest = dict(
-        text="Coq proofs that a cancel request is never dropped by the submission path for any queue capacity >= 1 (with a refuted witness for the pre-fix bare push), that driver-side cancel events touch only their own operation's record, and that cancelling never produces a second result; tied to the code by history acceptance and an oracle for promptness (cancelled op finishes within the following polls), honesty (ECANCELED or genuine data) and locality (neighbours unaffected) on the real driver, three routes, both drivers.",
+        text="Coq proofs that a cancel request is never dropped by the submission path for any queue capacity >= 1 (with a refuted witness for the pre-fix bare push), that driver-side cancel events touch only their own operation's record, and that cancelling never produces a second result; tied to the code by history acceptance and an oracle for promptness (cancelled op finishes within the following polls), honesty (ECANCELED or genuine data) and locality (neighbours unaffected) on the real driver, three routes, both drivers. Polling driver: removing one operation from a descriptor queue keeps the other waiters and their order, and the queue invariant survives any mix of cancellations, pushes and readiness events (PollDrv.v).",
         note="Partial: promptness/honesty of the kernel's answer to AsyncCancel are environment behaviour observed, not proved; timeouts = future drop are exercised at driver level only (Proactor::cancel / cancel_token). Fixed defect: AsyncCancel dropped on a full SQ (e6799fd). No axioms.",
         technique="Coq proof (bounded-queue lemma, locality over the LTS) + history acceptance and cancellation oracle")
     prop_file = "prop/C05.v"
